@@ -74,6 +74,30 @@ func Restrict(f *report.Finding, props ...string) {
 	findingProps[f.Key()] = props
 }
 
+// Inherits: a property that is decided only through necessary conditions shared with other
+// properties is concerned by every finding that concerns one of those. C01 (retrieval returns
+// exactly the selected nodes, in order) is broken by anything that breaks order (C07),
+// composition (C08), filter logic (C09, C10), subscripts (C11), function application (C14) or
+// member addressing (C16).
+var Inherits = map[string][]string{
+	"C01": {"C07", "C08", "C09", "C10", "C11", "C14", "C16"},
+}
+
+// ConcernsList reports whether a restriction list concerns property prop.
+func ConcernsList(ps []string, prop string) bool {
+	for _, p := range ps {
+		if p == prop {
+			return true
+		}
+		for _, q := range Inherits[prop] {
+			if p == q {
+				return true
+			}
+		}
+	}
+	return false
+}
+
 // Concerns reports whether finding f concerns property prop.
 func Concerns(f report.Finding, prop string) bool {
 	fpMu.Lock()
@@ -82,12 +106,7 @@ func Concerns(f report.Finding, prop string) bool {
 	if !ok {
 		return true
 	}
-	for _, p := range ps {
-		if p == prop {
-			return true
-		}
-	}
-	return false
+	return ConcernsList(ps, prop)
 }
 
 // PropsOf returns the property restriction of a finding (nil = all properties of its rule).
